@@ -34,3 +34,140 @@ def run_extra(name, tier):
     r.setdefault('reason', '')
     r['wall_s'] = round(time.time() - t0, 2)
     return r
+
+
+def _src(rel=''):
+    base = os.environ.get('VERIF_REPO_SRC') or os.path.join(REPO, 'jmespath', 'src')
+    return os.path.join(base, rel)
+
+
+def _crate():
+    if os.environ.get('VERIF_REPO_SRC'):
+        return os.path.dirname(os.environ['VERIF_REPO_SRC'].rstrip('/'))
+    return os.path.join(REPO, 'jmespath')
+
+
+sys.path.insert(0, os.path.dirname(__file__))
+import rustscan as R  # noqa: E402
+
+FORBIDDEN = [r'\bCell\s*<', r'\bRefCell\b', r'\bMutex\b', r'\bRwLock\b', r'\bAtomic[A-Z]\w*', r'\bUnsafeCell\b',
+             r'\bstatic\s+mut\b', r'\bunsafe\b', r'\bthread_local!', r'\bOnceCell\b', r'\bOnceLock\b', r'\bLazyCell\b']
+
+
+@extra
+def frame_scan(tier):
+    """C13/C16: the frame argument (inputs and compiled expressions are reached only through `&`) rests on the
+    absence of interior mutability and unsafe code.  A hit is UNDECIDED (exit 2), never a violation: the scan
+    cannot tell a correct use from a wrong one."""
+    hits = []
+    files = sorted(f for f in os.listdir(_src()) if f.endswith('.rs'))
+    for f in files:
+        src = open(_src(f)).read()
+        mask = R.mask_source(src)
+        # drop #[cfg(test)] modules
+        for pat in FORBIDDEN:
+            for m in re.finditer(pat, mask):
+                line = src.count('\n', 0, m.start()) + 1
+                hits.append('%s:%d: %s' % (f, line, m.group(0)))
+    if hits:
+        return {'status': 'undecided', 'reason': 'interior mutability / unsafe found, frame argument no longer applies: ' + '; '.join(hits[:5]),
+                'failures': [], 'obligations': 0, 'discharged': 0}
+    return {'status': 'ok', 'obligations': len(files), 'discharged': len(files), 'scanned': files,
+            'cmd': 'tools/extras.py frame_scan (regex scan of jmespath/src/*.rs with comments/strings blanked)',
+            'trusted': ['T3: safe Rust without interior mutability cannot mutate through & (borrow checker); lazy_static initialises once'],
+            'note': 'patterns: ' + ', '.join(FORBIDDEN)}
+
+
+SPEC_BUILTINS = ['abs', 'avg', 'ceil', 'contains', 'ends_with', 'floor', 'join', 'keys', 'length', 'map', 'max', 'max_by',
+                 'merge', 'min', 'min_by', 'not_null', 'reverse', 'sort', 'sort_by', 'starts_with', 'sum', 'to_array',
+                 'to_number', 'to_string', 'type', 'values']
+
+
+def _camel(n):
+    return ''.join(w.capitalize() for w in n.split('_')) + 'Fn'
+
+
+@extra
+def builtin_table(tier):
+    """C15/C02/C06: runtime.rs::register_builtin_functions binds each of the 26 specified names to the struct of
+    the same function.  Exhaustive syntactic check of the (finite) table, read from the source each run; the
+    registry semantics of register_function is the Verus obligation `register-binds-exact-name`."""
+    src = open(_src('runtime.rs')).read()
+    try:
+        item, _ = R.locate(src, 'runtime.rs', ['impl Runtime', 'fn register_builtin_functions'])
+    except R.LostAnchor as e:
+        return {'status': 'undecided', 'reason': str(e)}
+    body = R.mask_source(item.body)
+    raw = item.body
+    stmts = [s.strip() for s in raw.split(';') if s.strip() and not s.strip().startswith('//')]
+    seen = {}
+    fails = []
+    for s in stmts:
+        m = re.fullmatch(r'self\.register_function\(\s*"(\w+)"\s*,\s*Box::new\(\s*(\w+)::new\(\)\s*\)\s*\)', re.sub(r'\s+', ' ', s).replace('( ', '(').replace(' )', ')'))
+        if not m:
+            return {'status': 'undecided', 'reason': 'statement not of the form self.register_function("name", Box::new(T::new())): ' + s[:80]}
+        seen[m.group(1)] = m.group(2)   # a later statement for the same name wins (registry semantics)
+    for n in SPEC_BUILTINS:
+        if n not in seen:
+            fails.append(('missing', n, 'builtin `%s` is not registered' % n))
+        elif seen[n] != _camel(n):
+            fails.append(('wrong-impl', n, 'name `%s` is bound to %s, expected %s' % (n, seen[n], _camel(n))))
+    for n in seen:
+        if n not in SPEC_BUILTINS:
+            fails.append(('extra', n, 'name `%s` is registered but is not a specified builtin' % n))
+    failures = [{'obligation': 'extra/builtin_table#table:%s-%s' % (k, n), 'kind': 'table', 'label': k, 'properties': ['C15', 'C02', 'C06'],
+                 'function': 'runtime.rs::register_builtin_functions', 'message': msg, 'clause': 'name -> implementation table',
+                 'site': {'repo': 'jmespath/src/runtime.rs:%d-%d' % (item.first_line, item.last_line)}, 'rendered': msg,
+                 'backend': 'extra', 'witness': {'call': '%s(...)' % n}, 'witness_replayed': False} for k, n, msg in fails]
+    return {'status': 'fail' if failures else 'ok', 'failures': failures, 'obligations': len(SPEC_BUILTINS), 'discharged': len(SPEC_BUILTINS) - len(set(f[1] for f in fails if f[1] in SPEC_BUILTINS)),
+            'cmd': 'tools/extras.py builtin_table (exhaustive over the 26-row table)', 'table': seen}
+
+
+def _cargo(args, cwd, timeout=900, toolchain=None):
+    env = dict(os.environ, CARGO_NET_OFFLINE='true')
+    env.pop('RUSTUP_TOOLCHAIN', None)
+    cmd = ['cargo'] + ([('+' + toolchain)] if toolchain else []) + args
+    p = subprocess.run(cmd, cwd=cwd, env=env, capture_output=True, text=True, timeout=timeout)
+    return p
+
+
+@extra
+def sync_bounds(tier):
+    """C16: type-level obligations discharged by rustc's trait solver on the real crate built with --features sync:
+    the public types are Send + Sync.  A failed bound is a VIOLATION."""
+    scratch = tempfile.mkdtemp(prefix='vf_sync_')
+    try:
+        d = os.path.join(scratch, 'syncob')
+        os.makedirs(os.path.join(d, 'src'))
+        open(os.path.join(d, 'Cargo.toml'), 'w').write(
+            '[package]\nname = "syncob"\nversion = "0.1.0"\nedition = "2018"\n[dependencies]\njmespath = { path = "%s", features = ["sync"] }\n[workspace]\n' % _crate())
+        bounds = ['jmespath::Expression<\'static>', 'jmespath::Runtime', 'jmespath::Variable', 'jmespath::Rcvar', 'jmespath::ast::Ast',
+                  'jmespath::JmespathError', 'jmespath::Context<\'static>', 'Box<dyn jmespath::functions::Function>',
+                  'jmespath::functions::Signature', 'jmespath::functions::CustomFunction']
+        body = 'fn need<T: Send + Sync>() {}\n'
+        for i, b in enumerate(bounds):
+            body += 'pub fn ob_%d() { need::<%s>(); }\n' % (i, b)
+        body += 'pub fn ob_default_runtime() { fn s<T: Sync>(_: &T) {} s(&*jmespath::DEFAULT_RUNTIME); }\n'
+        open(os.path.join(d, 'src', 'lib.rs'), 'w').write(body)
+        env = dict(os.environ, CARGO_NET_OFFLINE='true', CARGO_TARGET_DIR=os.path.join(scratch, 'target'))
+        env.pop('RUSTUP_TOOLCHAIN', None)
+        lock = os.path.join(_crate(), 'Cargo.lock')
+        p = subprocess.run(['cargo', 'check', '--offline', '--message-format', 'short'], cwd=d, env=env, capture_output=True, text=True, timeout=900)
+        out = p.stdout + p.stderr
+        if p.returncode == 0:
+            return {'status': 'ok', 'obligations': len(bounds) + 1, 'discharged': len(bounds) + 1, 'bounds': bounds + ['DEFAULT_RUNTIME: Sync'],
+                    'cmd': 'cargo check --offline  (crate stating `T: Send + Sync` for each type against jmespath with features=["sync"])',
+                    'trusted': ['rustc trait solver; T3: safe Rust is data-race free']}
+        failed = []
+        for i, b in enumerate(bounds):
+            if re.search(r'src/lib\.rs:%d:' % (i + 2), out):
+                failed.append(b)
+        if not failed and 'E0277' not in out:
+            return {'status': 'undecided', 'reason': 'sync obligations crate did not build: ' + out[-400:]}
+        failures = [{'obligation': 'extra/sync_bounds#bound:%s' % re.sub(r'[^A-Za-z0-9]+', '_', b), 'kind': 'bound', 'label': b, 'properties': ['C16'],
+                     'function': b, 'message': '%s is not Send + Sync under --features sync' % b, 'clause': 'T: Send + Sync',
+                     'site': {'repo': 'jmespath/src'}, 'rendered': out[-1500:], 'backend': 'extra',
+                     'witness': {'type': b}, 'witness_replayed': True} for b in (failed or ['(unidentified)'])]
+        return {'status': 'fail', 'failures': failures, 'obligations': len(bounds) + 1, 'discharged': len(bounds) + 1 - len(failures)}
+    finally:
+        shutil.rmtree(scratch, ignore_errors=True)
